@@ -1,0 +1,12 @@
+//go:build verif
+
+// Contracts for the deductive checker in /verif (govc). Comment-only; ignored without the
+// "verif" build tag.
+
+package types
+
+// C03: a transaction that passes basic validation carries a valid (sorted, positive, well-formed) fee and a
+// non-empty signature
+//@ func (tx StdTx) ValidateBasic() (err sdk.Error)
+//@   props C03
+//@   ensures err == nil ==> valid(tx.Fee) && len(tx.Signature.Signature) != 0
